@@ -1,1 +1,41 @@
-(* C06 -- theorems to be stated here. *)
+(* C06 -- BelT-CTR: s0 = E(IV) read as a little-endian 128-bit integer; keystream block i (i >= 1)
+   is E(le128((s0 + i) mod 2^128)); the data is xored; encryption = decryption.
+   For every cipher E (any parallel width), every IV, every number of blocks. *)
+From BM Require Import Ints Ints_proofs Belt Stream Stream_proofs Belt_proofs Interp Interp_proofs.
+
+Theorem C06_keystream : forall (C : cipher) n iv,
+  belt_gen_n C n (belt_init C iv) =
+  (mkbelt (if n =? 0 then le_decode (c_E C iv) else wrap 128 (le_decode (c_E C iv) + N.of_nat n)) (le_decode (c_E C iv)),
+   map (fun j => c_E C (le_encode 16 (wrap 128 (le_decode (c_E C iv) + N.of_nat (S j))))) (seq 0 n)).
+Proof. exact belt_from_iv. Qed.
+Print Assumptions C06_keystream.
+
+Theorem C06_from_any_state : forall (C : cipher) n s si,
+  belt_gen_n C n (mkbelt s si) =
+  (mkbelt (if n =? 0 then s else wrap 128 (s + N.of_nat n)) si,
+   map (fun j => c_E C (le_encode 16 (wrap 128 (s + N.of_nat (S j))))) (seq 0 n)).
+Proof. exact belt_keystream. Qed.
+Print Assumptions C06_from_any_state.
+
+(* single, parallel and tail paths, as the interpreter dispatches them *)
+Theorem C06_paths : forall (C : cipher) n st,
+  ks_blocks (kscore C SBelt) n (CBelt st) = (let '(st', bl) := belt_gen_n C n st in (CBelt st', bl)).
+Proof. intros C n st. destruct (kscore_ks_blocks C) as (_ & H & _). rewrite H. apply kscore_belt_gen_n. Qed.
+Print Assumptions C06_paths.
+
+(* block position bookkeeping: get_block_pos after n blocks is n; set then get is the identity *)
+Theorem C06_positions : forall n s p, (s < pow2 128)%N -> (N.of_nat n < pow2 128)%N -> (p < pow2 128)%N ->
+  belt_get_pos (mkbelt (wrap 128 (s + N.of_nat n)) s) = N.of_nat n /\
+  belt_get_pos (belt_set_pos (mkbelt s s) p) = p.
+Proof. intros n s p Hs Hn Hp. split; [now apply belt_pos_after | now apply belt_set_get]. Qed.
+Print Assumptions C06_positions.
+
+(* encryption and decryption are the same operation: xoring twice with the same keystream *)
+Theorem C06_involution : forall data ks : list N, length data <= length ks -> xorb (xorb data ks) ks = data.
+Proof. exact xorb_cancel_r. Qed.
+Print Assumptions C06_involution.
+
+(* non-vacuity: with s0 = 2^128 - 1 the first block is E(le128(0)) -- the sum wraps *)
+Example C06_wrap_example : wrap 128 (340282366920938463463374607431768211455 + 1) = 0%N.
+Proof. reflexivity. Qed.
+Print Assumptions C06_wrap_example.
